@@ -47,6 +47,12 @@ func k2(args []string) {
 		fmt.Fprintf(rw, "(k2d %s %d)\n", t.Sexp(), ops)
 		fmt.Fprintln(gw, rt.RunDepth(t, ops))
 		n++
+		if n%4 == 0 {
+			// the same profile when the consumer advances with Send(0)
+			// (five times as many advances: frames piling up from advance to advance show as DRIFT)
+			fmt.Fprintf(rw, "(k2d %s %d)\n", t.Sexp(), 5*ops)
+			fmt.Fprintln(gw, rt.RunDepthBy(t, 5*ops, true))
+		}
 	}
 	for _, t := range rt.Exhaustive(maxSize, 2, *seed, false) {
 		emit(t)
